@@ -186,6 +186,8 @@ class Check(PropertyCheck):
         v = self.failures(getattr(self, "results", []))
         if schedx_part:
             v += schedx_part.direct_x(self) or []
+        import f9_part
+        v += f9_part.hunt(self)
         return v[:6]
 
     def search(self):
